@@ -553,7 +553,7 @@ def judge(c, o, prof):
 
     if o == [-1]:
         return '%s: the encoder panicked' % prof
-    enc, buf, decoded, leftover, fix = o
+    enc, buf, decoded, leftover, fix = o[:5]
     if enc == -2:
         if buf:
             return '%s: encode_to returned an error after writing %d bytes' % (prof, len(buf))
@@ -698,6 +698,12 @@ def oracle(c, obs):
         why = judge(c, o, prof)
         if why:
             return why
+        # hidden encoder state (harness field 6): a codec that has encoded the earlier messages of the run writes the
+        # same octets as a fresh codec, for this message and for the previous one built again
+        if isinstance(o, list) and len(o) == 6 and 0 in o[5]:
+            return ('%s: the octets written for %s depend on the messages the session codec encoded before (a codec that lived through the run and a '
+                    'fresh one differ): the frames do not decode to the routes of this message [class=encoder-memory]' % (
+                        prof, 'this message' if o[5][0] == 0 else 'the previous message, built again after this one was dropped'))
     return None
 
 def in_known_class(kf, c, obs, why):
